@@ -1,6 +1,7 @@
 package sio
 
 import (
+	"fmt"
 	"math"
 	"time"
 
@@ -20,6 +21,9 @@ const (
 	clientConnStateReconnecting
 	clientConnStateDisconnected
 )
+
+// `connect` returns this when `Close` was called while the connection was being established.
+var errClosedWhileConnecting = fmt.Errorf("sio: manager was closed while it was connecting")
 
 func (m *Manager) connected() bool {
 	m.stateMu.RLock()
@@ -99,6 +103,21 @@ func (m *Manager) connect(recursed bool, closeGen uint64) (err error) {
 		m.stateMu.Unlock()
 		m.errorHandlers.forEach(func(handler *ManagerErrorFunc) { (*handler)(err) }, true)
 		return err
+	}
+
+	// `Close` may have been called while we were connecting (it finds nothing to close until `eio` is set below,
+	// or it is waiting for `eioMu` right now): the user doesn't want this connection anymore.
+	if m.closeGeneration() != closeGen {
+		m.debug.Log("Manager was closed while it was connecting. Dropping the connection")
+		activeMu.Lock()
+		active = false
+		activeMu.Unlock()
+		go _eio.Close()
+		m.resetParser()
+		m.stateMu.Lock()
+		m.state = clientConnStateDisconnected
+		m.stateMu.Unlock()
+		return errClosedWhileConnecting
 	}
 
 	m.stateMu.Lock()
@@ -210,7 +229,11 @@ func (m *Manager) reconnect(recursed bool, closeGen uint64) {
 	}
 
 	m.debug.Log("Attempting to reconnect")
-	err := m.connect(true, 0)
+	err := m.connect(true, closeGen)
+	if err == errClosedWhileConnecting {
+		m.debug.Log("Skipping reconnect")
+		return
+	}
 	if err != nil {
 		m.debug.Log("Reconnect failed", err)
 		m.stateMu.Lock()
